@@ -129,15 +129,59 @@ async def through_server(chk: Check, rng: random.Random):
         await q.finish()
 
 
+class GatedSession(RecSession):
+    """a session whose close() can be made slow (user code of arbitrary duration)"""
+    gate = None
+
+    async def close(self):
+        if self.gate is not None:
+            await self.gate.wait()
+        await super().close()
+
+
 async def server_history(chk: Check, rng: random.Random, sid: int, n: int, nev: int):
     """Arrivals / departures / refusals through the real MysqlServer._client_connected_cb with a small sequence
     space; after every event the registry must equal the set of live connections (model: arrival = add,
     refused arrival = no change, departure = remove of that connection's id)."""
     ctl = small_control(n, sid)
-    srv = mkserver((RecSession() for _ in range(10 ** 6)), control=ctl)
+    srv = mkserver((GatedSession() for _ in range(10 ** 6)), control=ctl)
     lines, impl, live = [f"ctl newn {n} 16 {sid}"], ["ok"], []
+    closing = []      # killed connections parked in a slow session.close(): still live, still registered
     for _ in range(nev):
-        if live and rng.random() < 0.4:
+        x = rng.random()
+        if closing and x < 0.2:
+            p, sess = closing.pop(0)
+            sess.gate.set()
+            await settle(10)
+            live.remove(p)
+            await p.finish()
+            lines.append(f"ctl rm {p.greeting['cid']}")
+            impl.append("ok")
+            chk.count("srv:slow-close-finished")
+        elif live and x < 0.35 and len(closing) < len(live):
+            p = rng.choice([q for q in live if all(q is not c[0] for c in closing)])
+            conn = ctl._connections.get(p.greeting["cid"])
+            if conn is None:
+                chk.fail("a live connection is not registered under its id", dict(id=p.greeting["cid"], history=lines[-60:]))
+                break
+            conn.session.gate = asyncio.Event()
+            await ctl.kill(p.greeting["cid"])
+            await settle(10)
+            closing.append((p, conn.session))
+            lines.append("ctl live")     # no registry change: the connection is still there until its session has closed
+            impl.append(" ".join(map(str, sorted(ctl._connections))))
+            chk.count("srv:kill-slow-close")
+        elif [q for q in live if all(q is not c[0] for c in closing)] and x < 0.55:
+            p = rng.choice([q for q in live if all(q is not c[0] for c in closing)])
+            live.remove(p)
+            if rng.random() < 0.5:
+                await p.cmd(b"\x01")
+            await p.finish()
+            await settle(10)
+            lines.append(f"ctl rm {p.greeting['cid']}")
+            impl.append("ok")
+            chk.count("srv:depart")
+        elif False:
             p = live.pop(rng.randrange(len(live)))
             if rng.random() < 0.5:
                 await p.cmd(b"\x01")
@@ -173,6 +217,12 @@ async def server_history(chk: Check, rng: random.Random, sid: int, n: int, nev: 
             chk.fail("duplicate id among live connections", dict(ids=want, history=lines[-60:]))
             break
     # KILL addresses the right one: kill the oldest survivor through the newest
+    for p, sess in closing:
+        sess.gate.set()
+    await settle(10)
+    for p, sess in closing:
+        live.remove(p)
+        await p.finish()
     if len(live) >= 2:
         victim, killer = live[0], live[-1]
         await killer.cmd(b"\x03KILL %d" % victim.greeting["cid"])
